@@ -159,14 +159,14 @@ theorem ctx_cancelled_after_return (es : List Ev) (s : St) (h : model.run model.
     rcases hr with e | e <;> simp only [e] at hp <;> exact hp.2.2 hne
   simp [St.subCancelled, this]
 
-/-- … hence a function that is still running after the return and looks at `ctx.Err()` sees it
-cancelled. -/
+/-- … hence every look at the context handed to a function (by the function while it is still
+running, or by anybody later) after the return sees it cancelled. -/
 theorem probe_after_return (es : List Ev) (s s' : St) (h : model.run model.init es = some s)
     (r : Res) (hr : s.result r) (i : Nat) (c : Bool) (hs : step s (.probe i c) = some s') : c = true := by
   simp only [step] at hs; split at hs <;> simp at hs
-  rename_i hw
+  rename_i w hw
   have hne : s.ws ≠ [] := by intro e; rw [e] at hw; simp at hw
-  rw [hs.1]; exact ctx_cancelled_after_return es s h r hr hne
+  rw [hs.1.2]; exact ctx_cancelled_after_return es s h r hr hne
 
 /-- **no panic.** The call never panics: for no event list is `panic` the decided result — in
 particular not for zero entries, a single nil entry or only nil entries (see the examples below). -/
@@ -225,8 +225,16 @@ example : model.run model.init
 /-- early return on an error while the other function still runs; it then sees a cancelled context -/
 example : ∃ s, model.run model.init
     [.inv [true, true], .enter, .cbin 1, .cbin 0, .cbout 1 (.err 1), .decCS 1, .recheckCS, .deferCancel,
-     .ret (.err 1), .probe 0 true, .cbout 0 .nil, .decCS 0, .quiesce false []] = some s ∧
+     .ret (.err 1), .probe 0 true, .cbout 0 .nil, .decCS 0, .probe 0 true, .probe 1 true, .quiesce false []] = some s ∧
     s.pc = .finished (.err 1) := by decide
+
+/-- a single function: its context is cancelled once the call has returned (and was live before) -/
+example : ∃ s, model.run model.init
+    [.inv [true], .enter, .cbin 0, .probe 0 false, .cbout 0 .nil, .deferCancel, .ret .nil, .probe 0 true] = some s ∧
+    s.pc = .finished .nil := by decide
+
+example : model.run model.init
+    [.inv [true], .enter, .cbin 0, .cbout 0 .nil, .deferCancel, .ret .nil, .probe 0 false] = none := by decide
 
 /-- the caller's context is cancelled while it waits: Canceled, the functions keep running -/
 example : ∃ s, model.run model.init
